@@ -2048,3 +2048,214 @@ Proof.
   intros Hin. apply comp_eqb_false in E. apply E.
   apply (names_unique_spec _ Hu); [apply comps_In, Hin | apply comps_In, Hc | exact Hname].
 Qed.
+
+(* ================================================================================================ *)
+(* 15. to_compartmental_system                                                                      *)
+(* ================================================================================================ *)
+From PV Require Import C05.ToCs.
+
+Lemma all_shapes_roundtrip : forallb (fun s => roundtrip_ok (shape_graph s)) all_shapes = true.
+Proof. vm_compute. reflexivity. Qed.
+
+Lemma odes_roundtrip_bounded_lemma s :
+  In s all_shapes ->
+  let g := shape_graph s in
+  WF g /\ linear_distinct g = true /\ same_flows g (rebuilt g) (order g) = true.
+Proof.
+  intros Hin g. pose proof all_shapes_roundtrip as H. rewrite forallb_forall in H. specialize (H s Hin).
+  unfold roundtrip_ok in H. apply andb_prop in H. destruct H as [H H3]. apply andb_prop in H. destruct H as [H1 H2].
+  split; [apply wf_graph_WF, H1 | split; assumption].
+Qed.
+
+Lemma rebuilt_with_default amt_t g : g_default_idv amt_t g = true -> rebuilt_with amt_t g = rebuilt g.
+Proof.
+  unfold g_default_idv, rebuilt_with, rebuilt. rewrite forallb_forall. intros H. f_equal.
+  apply map_ext_in. intros c Hc. specialize (H c Hc). apply expr_eqb_spec in H.
+  unfold created_comp, default_comp. rewrite <- H. reflexivity.
+Qed.
+
+(* ================================================================================================ *)
+(* 16. move_dose: two compartments relabelled at once keep every flow                               *)
+(* ================================================================================================ *)
+Definition rstep1 (acc : graph) (old new : node) : graph :=
+  if node_eqb new old then acc else if has_node acc old then relabel1 acc old new else acc.
+
+Lemma relabel_two g s s' d d' :
+  NoDup (nodes g) -> In s (nodes g) -> In d (nodes g) -> s <> d ->
+  relabel g [(s, s'); (d, d')] = rstep1 (rstep1 g s s') d d' \/
+  relabel g [(s, s'); (d, d')] = rstep1 (rstep1 g d d') s s'.
+Proof.
+  intros Hn Hs Hd Hsd. unfold relabel.
+  set (step := fun acc old0 => match map_lookup [(s, s'); (d, d')] old0 with
+                               | Some new0 => if node_eqb new0 old0 then acc
+                                              else if has_node acc old0 then relabel1 acc old0 new0 else acc
+                               | None => acc end).
+  assert (Es : forall acc, step acc s = rstep1 acc s s').
+  { intros acc. unfold step, rstep1. cbn [map_lookup]. rewrite node_eqb_refl. reflexivity. }
+  assert (Ed : forall acc, step acc d = rstep1 acc d d').
+  { intros acc. unfold step, rstep1. cbn [map_lookup].
+    assert (E : node_eqb s d = false) by (apply node_eqb_false; exact Hsd). rewrite E, node_eqb_refl. reflexivity. }
+  assert (Eo : forall acc n, n <> s -> n <> d -> step acc n = acc).
+  { intros acc n H1 H2. unfold step. cbn [map_lookup].
+    assert (E1 : node_eqb s n = false) by (apply node_eqb_false; congruence).
+    assert (E2 : node_eqb d n = false) by (apply node_eqb_false; congruence). rewrite E1, E2. reflexivity. }
+  assert (Hnone : forall l acc, ~ In s l -> ~ In d l -> fold_left step l acc = acc).
+  { induction l as [|n tl IH]; intros acc H1 H2; cbn [fold_left]; [reflexivity|].
+    rewrite Eo; [apply IH|..]; cbn [In] in *; tauto. }
+  assert (Hone : forall k l acc, (k = s \/ k = d) -> NoDup l -> In k l ->
+                                 (forall k', (k' = s \/ k' = d) -> k' <> k -> ~ In k' l) -> fold_left step l acc = step acc k).
+  { intros k. induction l as [|n tl IH]; intros acc Hk Hnd Hin Hother; [destruct Hin|]. cbn [fold_left].
+    inversion Hnd as [|? ? Hx Ht]; subst. destruct Hin as [Hin|Hin].
+    - subst n. apply Hnone.
+      + destruct Hk as [-> | ->]; [exact Hx | intros H; apply (Hother s); [left; reflexivity | congruence | right; exact H]].
+      + destruct Hk as [-> | ->]; [intros H; apply (Hother d); [right; reflexivity | congruence | right; exact H] | exact Hx].
+    - assert (Hns : n <> s).
+      { intros E. subst n. destruct Hk as [-> | ->]; [contradiction|]. apply (Hother s); [left; reflexivity | exact Hsd | left; reflexivity]. }
+      assert (Hnd' : n <> d).
+      { intros E. subst n. destruct Hk as [-> | ->]; [|contradiction]. apply (Hother d); [right; reflexivity | congruence | left; reflexivity]. }
+      rewrite Eo by assumption. apply IH; try assumption. intros k' H1 H2 H3. apply (Hother k' H1 H2). right. exact H3. }
+  assert (Hgen : forall l acc, NoDup l -> In s l -> In d l ->
+                               fold_left step l acc = step (step acc s) d \/ fold_left step l acc = step (step acc d) s).
+  { induction l as [|n tl IH]; intros acc Hnd H1 H2; [destruct H1|]. cbn [fold_left].
+    inversion Hnd as [|? ? Hx Ht]; subst. destruct H1 as [H1|H1], H2 as [H2|H2].
+    - congruence.
+    - subst n. left. apply (Hone d); [right; reflexivity | exact Ht | exact H2|].
+      intros k' [-> | ->] Hk'; [exact Hx | congruence].
+    - subst n. right. apply (Hone s); [left; reflexivity | exact Ht | exact H1|].
+      intros k' [-> | ->] Hk'; [congruence | exact Hx].
+    - rewrite Eo; [apply IH; assumption | intros E; subst; contradiction | intros E; subst; contradiction]. }
+  destruct (Hgen (nodes g) g Hn Hs Hd) as [H|H]; [left | right]; rewrite H, ?Es, ?Ed; reflexivity.
+Qed.
+
+Lemma rstep1_WF g old new : WF g -> old <> Out -> new <> Out -> WF (rstep1 g old new).
+Proof.
+  intros Hwf Ho Hn. unfold rstep1. destruct (node_eqb new old); [exact Hwf|]. destruct (has_node g old); [|exact Hwf].
+  apply relabel1_WF; assumption.
+Qed.
+
+Lemma rstep1_flows g old new u v :
+  WF g -> In old (nodes g) -> (new = old \/ ~ In new (nodes g)) -> In u (nodes g) -> In v (nodes g) ->
+  get_flow (rstep1 g old new) (ren old new u) (ren old new v) = get_flow g u v.
+Proof.
+  intros Hwf Hold Hnew Hu Hv. unfold rstep1. destruct (node_eqb new old) eqn:E.
+  - apply node_eqb_spec in E. subst new. unfold ren.
+    destruct (node_eqb u old) eqn:Eu; [apply node_eqb_spec in Eu; subst u|];
+      (destruct (node_eqb v old) eqn:Ev; [apply node_eqb_spec in Ev; subst v|]); reflexivity.
+  - rewrite (proj2 (has_node_In g old) Hold). apply relabel1_flows; try assumption.
+    destruct Hnew as [Hnew|Hnew]; [subst; rewrite node_eqb_refl in E; discriminate | exact Hnew].
+Qed.
+
+Lemma rstep1_nodes_In g old new n :
+  WF g -> In old (nodes g) -> (new = old \/ ~ In new (nodes g)) ->
+  In n (nodes (rstep1 g old new)) <-> (In n (nodes g) /\ n <> old) \/ n = new.
+Proof.
+  intros Hwf Hold Hnew. unfold rstep1. destruct (node_eqb new old) eqn:E.
+  - apply node_eqb_spec in E. subst new. split.
+    + intros H. destruct (node_eqb n old) eqn:En; [apply node_eqb_spec in En; right; exact En | left; split; [exact H | apply node_eqb_false, En]].
+    + intros [[H _]|H]; [exact H | subst; exact Hold].
+  - rewrite (proj2 (has_node_In g old) Hold).
+    destruct Hnew as [Hnew|Hnew]; [subst; rewrite node_eqb_refl in E; discriminate|].
+    rewrite (relabel1_nodes_lemma g old new Hwf Hold Hnew), in_app_iff, without_In. cbn [In]. intuition.
+Qed.
+
+Lemma two_step_flows g k1 v1 k2 v2 u v :
+  WF g -> In k1 (nodes g) -> In k2 (nodes g) -> k1 <> k2 -> k1 <> Out -> k2 <> Out -> v1 <> Out ->
+  (v1 = k1 \/ ~ In v1 (nodes g)) -> (v2 = k2 \/ ~ In v2 (nodes g)) -> v1 <> v2 ->
+  In u (nodes g) -> In v (nodes g) ->
+  get_flow (rstep1 (rstep1 g k1 v1) k2 v2) (ren k2 v2 (ren k1 v1 u)) (ren k2 v2 (ren k1 v1 v)) = get_flow g u v.
+Proof.
+  intros Hwf H1 H2 Hne Ho1 Ho2 Hov1 Hv1 Hv2 Hvv Hu Hv.
+  assert (Hwf1 : WF (rstep1 g k1 v1)) by (apply rstep1_WF; assumption).
+  assert (Hin1 : forall x, In x (nodes g) -> In (ren k1 v1 x) (nodes (rstep1 g k1 v1))).
+  { intros x Hx. apply (rstep1_nodes_In g k1 v1 _ Hwf H1 Hv1). unfold ren.
+    destruct (node_eqb x k1) eqn:E; [right; reflexivity | left; split; [exact Hx | apply node_eqb_false, E]]. }
+  rewrite rstep1_flows; try assumption.
+  - apply rstep1_flows; assumption.
+  - apply (rstep1_nodes_In g k1 v1 _ Hwf H1 Hv1). left. split; [exact H2 | congruence].
+  - destruct Hv2 as [Hv2|Hv2]; [left; exact Hv2|]. right. intros Hin.
+    apply (rstep1_nodes_In g k1 v1 _ Hwf H1 Hv1) in Hin. destruct Hin as [[Hin _]|Hin]; [contradiction | congruence].
+  - apply Hin1, Hu.
+  - apply Hin1, Hv.
+Qed.
+
+Lemma ren_comm k1 v1 k2 v2 x :
+  k1 <> k2 -> v1 <> k2 -> v2 <> k1 -> ren k2 v2 (ren k1 v1 x) = ren k1 v1 (ren k2 v2 x).
+Proof.
+  intros H12 H1 H2. unfold ren.
+  assert (Ea : node_eqb v1 k2 = false) by (apply node_eqb_false; exact H1).
+  assert (Eb : node_eqb v2 k1 = false) by (apply node_eqb_false; exact H2).
+  destruct (node_eqb x k1) eqn:E1; destruct (node_eqb x k2) eqn:E2; cbv beta iota;
+    rewrite ?Ea, ?Eb, ?E1, ?E2; try reflexivity.
+  apply node_eqb_spec in E1, E2. congruence.
+Qed.
+
+(* the renaming made by move_dose *)
+Definition ren2 (s s' d d' n : node) : node := ren d d' (ren s s' n).
+
+Theorem relabel_two_flows g s s' d d' u v :
+  WF g -> In s (nodes g) -> In d (nodes g) -> s <> d -> s <> Out -> d <> Out -> s' <> Out -> d' <> Out ->
+  (s' = s \/ ~ In s' (nodes g)) -> (d' = d \/ ~ In d' (nodes g)) -> s' <> d' ->
+  In u (nodes g) -> In v (nodes g) ->
+  get_flow (relabel g [(s, s'); (d, d')]) (ren2 s s' d d' u) (ren2 s s' d d' v) = get_flow g u v.
+Proof.
+  intros Hwf Hs Hd Hsd Hos Hod Hos' Hod' Hs' Hd' Hsd' Hu Hv. pose proof Hwf as [_ [Hn _]].
+  destruct (relabel_two g s s' d d' Hn Hs Hd Hsd) as [E|E]; rewrite E; unfold ren2.
+  - apply two_step_flows; assumption.
+  - assert (Hc : forall x, ren d d' (ren s s' x) = ren s s' (ren d d' x)).
+    { intros x. apply ren_comm; [exact Hsd | | ].
+      - destruct Hs' as [->|Hs']; [exact Hsd | intros E'; subst; contradiction].
+      - destruct Hd' as [->|Hd']; [congruence | intros E'; subst; contradiction]. }
+    rewrite !Hc. apply two_step_flows; try assumption; congruence.
+Qed.
+
+(* move_dose: source and destination are replaced by copies with other doses (same name, amount, input, lag
+   time, bioavailability); every flow is kept; every other compartment is untouched *)
+Theorem move_dose_preserves_flows_lemma g sn dn admid src dst g' :
+  WF g -> names_unique (comps g) = true ->
+  find_compartment g sn = Some src -> find_compartment g dn = Some dst ->
+  apply_op g (OMoveDose sn dn admid) = (g', None) ->
+  exists src' dst',
+    (c_name src' = c_name src /\ c_amount src' = c_amount src /\ c_input src' = c_input src /\
+     c_lag src' = c_lag src /\ c_bio src' = c_bio src) /\
+    (c_name dst' = c_name dst /\ c_amount dst' = c_amount dst /\ c_input dst' = c_input dst /\
+     c_lag dst' = c_lag dst /\ c_bio dst' = c_bio dst) /\
+    (forall n, In n (nodes g) -> n <> Cmt src -> n <> Cmt dst -> ren2 (Cmt src) (Cmt src') (Cmt dst) (Cmt dst') n = n) /\
+    (forall u v, In u (nodes g) -> In v (nodes g) ->
+       get_flow g' (ren2 (Cmt src) (Cmt src') (Cmt dst) (Cmt dst') u) (ren2 (Cmt src) (Cmt src') (Cmt dst) (Cmt dst') v)
+       = get_flow g u v).
+Proof.
+  intros Hwf Hu Hfs Hfd Hop. cbn [apply_op] in Hop. rewrite Hfs, Hfd in Hop.
+  destruct (doses_prop src) as [|d0 dl] eqn:Edp; [discriminate|].
+  destruct (match admid_true admid with
+            | Some a => (filter (fun x => negb (Z.eqb (dose_admid x) a)) (d0 :: dl), filter (fun x => Z.eqb (dose_admid x) a) (d0 :: dl))
+            | None => ([], d0 :: dl) end) as [new_sd moved] eqn:Em.
+  destruct (find_compartment_In _ _ _ Hfs) as [Hs _]. destruct (find_compartment_In _ _ _ Hfd) as [Hd _].
+  assert (Hfresh : forall c c', In (Cmt c) (nodes g) -> c_name c' = c_name c -> Cmt c' = Cmt c \/ ~ In (Cmt c') (nodes g)).
+  { intros c c' Hc Hn. destruct (comp_eqb c' c) eqn:E; [left; apply comp_eqb_spec in E; subst; reflexivity|].
+    right. intros Hin. apply comp_eqb_false in E. apply E.
+    apply (names_unique_spec _ Hu); [apply comps_In, Hin | apply comps_In, Hc | exact Hn]. }
+  destruct (comp_eqb src dst) eqn:Esd.
+  - (* source == destination: one entry, the destination value wins *)
+    apply comp_eqb_spec in Esd. subst dst. injection Hop as <-.
+    exists (with_doses src (doses_prop src ++ moved)), (with_doses src (doses_prop src ++ moved)).
+    repeat split; try reflexivity.
+    + intros n Hn H1 _. unfold ren2, ren. assert (E : node_eqb n (Cmt src) = false) by (apply node_eqb_false; exact H1).
+      rewrite E, E. reflexivity.
+    + intros u v Hiu Hiv. rewrite Edp.
+      set (c' := with_doses src ((d0 :: dl) ++ moved)).
+      assert (Hr : forall x, In x (nodes g) -> ren2 (Cmt src) (Cmt c') (Cmt src) (Cmt c') x = ren (Cmt src) (Cmt c') x).
+      { intros x Hx. unfold ren2, ren. destruct (node_eqb x (Cmt src)) eqn:E; [|rewrite E; reflexivity].
+        destruct (node_eqb (Cmt c') (Cmt src)); reflexivity. }
+      rewrite (Hr u Hiu), (Hr v Hiv). apply relabel_same_name_flows; try assumption. reflexivity.
+  - apply comp_eqb_false in Esd. injection Hop as <-.
+    exists (with_doses src new_sd), (with_doses dst (doses_prop dst ++ moved)).
+    split; [repeat split; reflexivity|]. split; [repeat split; reflexivity|]. split.
+    + intros n Hn H1 H2. unfold ren2, ren. assert (E1 : node_eqb n (Cmt src) = false) by (apply node_eqb_false; exact H1).
+      assert (E2 : node_eqb n (Cmt dst) = false) by (apply node_eqb_false; exact H2). rewrite E1, E2. reflexivity.
+    + intros u v Hiu Hiv. apply relabel_two_flows; try assumption; try discriminate.
+      * intros E. injection E as E. contradiction.
+      * apply Hfresh; [exact Hs | reflexivity].
+      * apply Hfresh; [exact Hd | reflexivity].
+      * intros E. apply (f_equal (fun n => match n with Cmt c => c_name c | Out => [] end)) in E. cbn in E.
+        apply Esd. apply (names_unique_spec _ Hu); [apply comps_In, Hs | apply comps_In, Hd | exact E].
+Qed.
